@@ -18,144 +18,7 @@
 #include "models.h"
 #include CAT_C
 
-static const char *h_pick_str(char *arr)
-{
-        size_t k;
-        for (k = 0; k < H_NL; k++)
-                arr[k] = nondet_char();
-        arr[H_NL] = 0;
-        return arr;
-}
-
-static void h_build_descriptor(void)
-{
-        size_t i, j;
-        h_crlf[0] = '\r'; h_crlf[1] = '\n'; h_crlf[2] = 0;
-        for (i = 0; i < H_BUFSZ; i++)
-                h_buf[i] = nondet_uchar();
-#if !H_SHARED
-        for (i = 0; i < H_UBUFSZ + 1; i++)
-                h_ubuf[i] = nondet_uchar();
-#endif
-        for (i = 0; i < H_NC; i++) {
-                struct cat_command *c = &h_cmds[i];
-                c->name = h_pick_str(h_names[i]);
-                c->description = NB() ? h_pick_str(h_descr[i]) : NULL;
-                c->write = NB() ? e_cmd_write : NULL;
-                c->read = NB() ? e_cmd_read : NULL;
-                c->run = NB() ? e_cmd_run : NULL;
-                c->test = NB() ? e_cmd_test : NULL;
-                c->var = NB() ? h_vars[i] : NULL;
-                c->var_num = nondet_size();
-                __CPROVER_assume(c->var_num <= H_NV);
-                c->need_all_vars = NB(); c->only_test = NB(); c->disable = NB(); c->implicit_write = NB();
-                /* precondition asserted by cat_init: implicit-write commands have no read/run/test handler */
-                __CPROVER_assume(!c->implicit_write || (c->read == NULL && c->run == NULL && c->test == NULL));
-                for (j = 0; j < H_NV; j++) {
-                        struct cat_variable *v = &h_vars[i][j];
-                        size_t k;
-                        int t = nondet_int(), a = nondet_int();
-                        __CPROVER_assume(t >= CAT_VAR_INT_DEC && t <= CAT_VAR_BUF_STRING && a >= CAT_VAR_ACCESS_READ_WRITE && a <= CAT_VAR_ACCESS_WRITE_ONLY);
-                        v->name = NB() ? h_pick_str(h_vnames[i][j]) : NULL;
-                        v->type = (cat_var_type)t;
-                        v->access = (cat_var_access)a;
-                        v->data = h_vdata[i][j];
-                        v->data_size = nondet_size();
-                        __CPROVER_assume(v->data_size >= 1 && v->data_size <= H_DS);
-                        v->write = NB() ? e_var_write : NULL;
-                        v->read = NB() ? e_var_read : NULL;
-                        for (k = 0; k < H_DS; k++)
-                                h_vdata[i][j][k] = nondet_uchar();
-                }
-        }
-        /* groups partition the first g_ncmds pool commands, in registration order */
-        {
-                size_t ng = NB() ? 1 : 2, n0 = nondet_size(), n1 = nondet_size();
-                __CPROVER_assume(n0 >= 1 && n0 <= H_NC);
-                if (ng == 1) { n1 = 0; } else { __CPROVER_assume(n1 >= 1 && n1 <= H_NC && n0 + n1 <= H_NC); }
-                h_grp[0].name = NULL; h_grp[0].cmd = &h_cmds[0]; h_grp[0].cmd_num = n0; h_grp[0].disable = NB();
-                h_grp[1].name = NULL; h_grp[1].cmd = &h_cmds[n0 < H_NC ? n0 : 0]; h_grp[1].cmd_num = n1; h_grp[1].disable = NB();
-                h_grp_ptrs[0] = &h_grp[0]; h_grp_ptrs[1] = &h_grp[1];
-                h_desc.cmd_group = h_grp_ptrs; h_desc.cmd_group_num = ng;
-                g_ncmds = n0 + n1;
-        }
-        h_desc.buf = h_buf; h_desc.buf_size = H_BUFSZ;
-#if H_SHARED
-        h_desc.unsolicited_buf = NULL; h_desc.unsolicited_buf_size = nondet_size();
-#else
-        h_desc.unsolicited_buf = h_ubuf; h_desc.unsolicited_buf_size = H_UBUFSZ;
-#endif
-        h_io.read = e_io_read; h_io.write = e_io_write;
-        h_mutex.lock = e_lock; h_mutex.unlock = e_unlock;
-}
-
-static const struct cat_command *h_pick_cmd(void)
-{
-        size_t i = nondet_size();
-        if (i >= H_NC) return NULL;
-        return &h_cmds[i];
-}
-
-static const struct cat_variable *h_pick_var(void)
-{
-        size_t i = nondet_size(), j = nondet_size();
-        if (i >= H_NC || j >= H_NV) return NULL;
-        return &h_vars[i][j];
-}
-
-static const char *h_pick_write_buf(const char *half)
-{
-        int k = nondet_int();
-        return (k == 0) ? &h_crlf[0] : (k == 1) ? &h_crlf[1] : (k == 2) ? half : NULL;
-}
-
-/* every field of the object nondeterministic; pointers chosen among their legal targets */
-static void h_build_object(void)
-{
-        size_t j;
-        h_obj.desc = &h_desc; h_obj.io = &h_io; h_obj.mutex = NB() ? &h_mutex : NULL;
-        h_obj.index = nondet_size(); h_obj.partial_cntr = nondet_size(); h_obj.length = nondet_size(); h_obj.position = nondet_size();
-        h_obj.write_size = nondet_size(); h_obj.commands_num = g_ncmds;
-        h_obj.cmd = h_pick_cmd(); h_obj.var = h_pick_var(); h_obj.cmd_type = (cat_cmd_type)nondet_int();
-        h_obj.current_char = nondet_char(); h_obj.cr_flag = NB(); h_obj.hold_state_flag = NB(); h_obj.hold_exit_status = nondet_int();
-        h_obj.write_buf = h_pick_write_buf((const char *)h_buf); h_obj.write_state = nondet_int(); h_obj.write_state_after = (cat_state)nondet_int();
-        h_obj.implicit_write_flag = NB();
-        h_obj.unsolicited_fsm.index = nondet_size(); h_obj.unsolicited_fsm.position = nondet_size();
-        h_obj.unsolicited_fsm.cmd = h_pick_cmd(); h_obj.unsolicited_fsm.var = h_pick_var(); h_obj.unsolicited_fsm.cmd_type = (cat_cmd_type)nondet_int();
-        h_obj.unsolicited_fsm.write_buf = h_pick_write_buf((const char *)H_UBUF); h_obj.unsolicited_fsm.write_state = nondet_int();
-        h_obj.unsolicited_fsm.write_state_after = (cat_unsolicited_state)nondet_int();
-        for (j = 0; j < H_RING; j++) {
-                h_obj.unsolicited_fsm.unsolicited_cmd_buffer[j].cmd = h_pick_cmd();
-                h_obj.unsolicited_fsm.unsolicited_cmd_buffer[j].type = (cat_cmd_type)nondet_int();
-        }
-        h_obj.unsolicited_fsm.unsolicited_cmd_buffer_head = nondet_size(); h_obj.unsolicited_fsm.unsolicited_cmd_buffer_tail = nondet_size();
-        h_obj.unsolicited_fsm.unsolicited_cmd_buffer_items_count = nondet_size();
-#ifdef JOB_STATE
-        h_obj.state = JOB_STATE;
-        h_obj.unsolicited_fsm.state = (cat_unsolicited_state)nondet_int();
-#else
-        h_obj.state = (cat_state)nondet_int();
-        h_obj.unsolicited_fsm.state = JOB_USTATE;
-#endif
-}
-
-static void h_reset_logs(void)
-{
-        size_t i;
-        struct env_log z = {0};
-        struct lock_log zl = {0};
-        E = z; G_EV = z; EL = zl;
-        g_old = h_obj;
-        for (i = 0; i < H_BUFSZ; i++) g_oldbuf[i] = h_buf[i];
-        { size_t a, b, c; for (a = 0; a < H_NC; a++) for (b = 0; b < H_NV; b++) for (c = 0; c < H_DS; c++) g_oldvdata[a][b][c] = h_vdata[a][b][c]; }
-#if !H_SHARED
-        for (i = 0; i < H_UBUFSZ + 1; i++) g_oldubuf[i] = h_ubuf[i];
-#endif
-        g_sat = 0; g_ndig = 0; g_size = 0; g_nesc = 0;
-        g_k = nondet_size(); g_j = nondet_size(); g_w = nondet_size();
-        g_len = h_obj.length;
-        if (h_obj.var != NULL && g_j < H_DS) g_oldbyte = ((const uint8_t *)h_obj.var->data)[g_j];
-}
+#include "l1_build.h"
 
 void harness(void)
 {
